@@ -129,7 +129,8 @@ Base1(k) == ((k * 3) % 7) - 3            \* 0 3 -1 2 -2 1 -3 0 ...
 Base2(k) == ((k * 5 + 1) % 9) - 4        \* 2 -2 3 -1 4 0 -4 1 ...
 NZ(v) == IF v >= 0 THEN v + 1 ELSE v     \* never zero
 Val(dt, p, k) ==
-  CASE dt = "bool" -> (IF p = 1 THEN k % 2 ELSE IF p = 2 THEN (k \div 2) % 2 ELSE 1)
+  CASE p = 5 -> ((k + 1) \div 2) % 2          \* 1 1 0 0 1 1 ...: ties in every row (first-occurrence rules of argmax / max.dim)
+    [] dt = "bool" -> (IF p = 1 THEN k % 2 ELSE IF p = 2 THEN (k \div 2) % 2 ELSE 1)
     [] dt = "u8" -> (IF p = 1 THEN Base1(k) + 3 ELSE IF p = 2 THEN (IF k % 3 = 0 THEN 250 + (k % 5) ELSE Base2(k) + 4)
                      ELSE IF p = 3 THEN AbsI(NZ(Base1(k))) ELSE (k * 3) % 4)
     [] OTHER -> (IF p = 1 THEN Base1(k) ELSE IF p = 2 THEN Base2(k) ELSE IF p = 3 THEN NZ(Base1(k)) ELSE (k * 3) % 4)
@@ -503,11 +504,12 @@ RedMenu(o) ==
            {<<TA(Mk(dt, sh, 1)), d>> \o kd : d \in {LA(l) : l \in RedDimLists(Len(sh))} \cup {NA}, kd \in {<<>>, <<BA(TRUE)>>}}
            \cup {<<TA(Mk(dt, sh, 1))>>}
       [] o \in {"aten::any.dim", "aten::all.dim", "aten::max.dim", "aten::min.dim", "aten::prod.dim_int"} ->
-           {<<TA(Mk(dt, sh, 1)), IA(d)>> \o kd \o kw : d \in (IF sh = <<>> THEN {0, -1} ELSE DimsOf(Len(sh))), kd \in {<<>>, <<BA(TRUE)>>},
-                                                     kw \in (IF o = "aten::prod.dim_int" THEN DtypeKws(o, dt) ELSE {<<>>})}
+           {<<TA(Mk(dt, sh, p)), IA(d)>> \o kd \o kw : d \in (IF sh = <<>> THEN {0, -1} ELSE DimsOf(Len(sh))), kd \in {<<>>, <<BA(TRUE)>>},
+                                                     kw \in (IF o = "aten::prod.dim_int" THEN DtypeKws(o, dt) ELSE {<<>>}),
+                                                     p \in (IF o \in {"aten::max.dim", "aten::min.dim"} THEN {1, 5} ELSE {1})}
       [] o \in {"aten::argmax", "aten::argmin"} ->
-           {<<TA(Mk(dt, sh, 1))>>, <<TA(Mk(dt, sh, 1)), NA, BA(TRUE)>>}
-           \cup {<<TA(Mk(dt, sh, 1)), IA(d)>> \o kd : d \in (IF sh = <<>> THEN {0, -1} ELSE DimsOf(Len(sh))), kd \in {<<>>, <<BA(TRUE)>>}}
+           {<<TA(Mk(dt, sh, 1))>>, <<TA(Mk(dt, sh, 5))>>, <<TA(Mk(dt, sh, 1)), NA, BA(TRUE)>>}
+           \cup {<<TA(Mk(dt, sh, p)), IA(d)>> \o kd : d \in (IF sh = <<>> THEN {0, -1} ELSE DimsOf(Len(sh))), kd \in {<<>>, <<BA(TRUE)>>}, p \in {1, 5}}
       [] o = "aten::cumsum" ->
            {<<TA(Mk(dt, sh, 1)), IA(d)>> \o kw : d \in (IF sh = <<>> THEN {0, -1} ELSE DimsOf(Len(sh))), kw \in DtypeKws(o, dt)}
     : dt \in SomeDts, sh \in RedShapes}
